@@ -55,6 +55,9 @@ type c21Sched struct {
 	// explores fine-grained interleavings and is judged by result equality only.
 	RaceMode bool `json:"race_mode"`
 	LockBias int  `json:"lock_bias"`
+	// SeedDriven: the run had more switches than the trace holds; it is replayed from the
+	// scheduler seed (which decides every switch) instead of from the explicit list
+	SeedDriven bool `json:"seed_driven,omitempty"`
 }
 
 type c21Case struct {
@@ -108,7 +111,8 @@ func normErr(err error) string {
 	}
 	s := addrRe.ReplaceAllString(err.Error(), "0xADDR")
 	if len(s) > 400 {
-		s = s[:400]
+		// the whole text takes part in the comparison (through its hash), not only its head
+		s = s[:400] + "… #" + hashLines([]string{s})
 	}
 	return "err:" + s
 }
@@ -691,6 +695,10 @@ func (p *c21Prop) exec(c *c21Case) (*Violation, *Result) {
 	sr, trs := simrt.RunTasks(simrt.SchedCfg{Seed: c.Sched.Seed, MeanGap: c.Sched.MeanGap, Starve: c.Sched.Starve, StarveTo: c.Sched.StarveTo,
 		Replay: c.Sched.Replay, Explicit: c.Sched.Explicit, MaxSteps: 50_000_000, HideSync: c.Sched.RaceMode && *flagHideSync && simrt.RaceBuild, LockBias: c.Sched.LockBias}, ctxs, fns)
 	races := simrt.RaceErrors() - racesBefore
+	if os.Getenv("HSIM_FULL") != "" {
+		res.Extra["solo_results"] = solo
+		res.Extra["interleaved_results"] = conc
+	}
 	res.Steps = sr.Steps
 	res.Extra["sched_hash"] = fmt.Sprintf("%016x", sr.Hash)
 	res.Extra["preempts"] = sr.Preempts
@@ -736,9 +744,12 @@ func (p *c21Prop) exec(c *c21Case) (*Violation, *Result) {
 	res.Fp = hashLines(append([]string{c.Pkg, fmt.Sprintf("%016x", sr.Hash)}, lines...))
 	res.Sample = map[string]any{"pkg": c.Pkg, "workload": c.Workload, "tasks": opKinds(c.Tasks), "mean_gap": c.Sched.MeanGap, "preempts": sr.Preempts, "steps": sr.Steps, "first_switches": firstSwitches(sr.Trace, 5)}
 	c.Sched.Explicit = nil
-	for _, s := range sr.Trace {
-		if s.Kind == "preempt" {
-			c.Sched.Explicit = append(c.Sched.Explicit, s)
+	c.Sched.SeedDriven = sr.Truncated || c.Sched.SeedDriven
+	if !c.Sched.SeedDriven {
+		for _, s := range sr.Trace {
+			if s.Kind == "preempt" {
+				c.Sched.Explicit = append(c.Sched.Explicit, s)
+			}
 		}
 	}
 	// oracles
@@ -944,7 +955,7 @@ func (p *c21Prop) Run(seed uint64, tier string) *Result {
 	v, res := p.exec(c)
 	if v != nil {
 		res.Violation = v
-		c.Sched.Replay = true
+		c.Sched.Replay = !c.Sched.SeedDriven
 		res.Case = c
 	}
 	return res
